@@ -589,6 +589,10 @@ THEOREMS = [P + n for n in (
     "readonly_table_never_written",
     "readonly_table_schedule_independent",
     "ctor_write_breaks_results",
+    "hot_path_shared_containers_locked_or_absent",
+    "memo_lookups_never_raise",
+    "memo_all_lookups_return",
+    "nonatomic_evict_double_delete",
 )]
 
 PYTHON = sys.executable
@@ -1262,6 +1266,75 @@ def dispatch_cache_writes(chk: Check) -> dict:
     return res
 
 
+# ---- shared containers written on the look-up hot path ------------------------------------------------------------
+HOT_PATH = [("sqlglot/dialects/dialect.py", "Dialect", "get_or_raise"), ("sqlglot/dialects/dialect.py", "_Dialect", "get"),
+            ("sqlglot/dialects/dialect.py", "_Dialect", "__getitem__"), ("sqlglot/dialects/dialect.py", "_Dialect", "_try_load"),
+            ("sqlglot/dialects/dialect.py", "Dialect", "__init__"), ("sqlglot/tokens.py", "Tokenizer", "__init__"),
+            ("sqlglot/parser.py", "Parser", "__init__"), ("sqlglot/generator.py", "Generator", "__init__")]
+AUDITED_CONTAINERS = {"_classes", "_DISPATCH_CACHE"}
+
+
+def hot_path_writes(chk: Check) -> dict:
+    """stores / deletes / mutating calls on module-level names or class-level containers (`cls.X`, `self.UPPER`, `type(self).X`)
+    inside the hot-path functions, that are not lexically under a `with <something lock-like>`"""
+    found, audited, unlocked = 0, [], []
+    trees = {}
+    for rel, cls_name, fn_name in HOT_PATH:
+        path = os.path.join(REPO, rel)
+        if rel not in trees:
+            trees[rel] = ast.parse(open(path, encoding="utf-8").read()) if os.path.isfile(path) else None
+        tree = trees[rel]
+        fn = _find_class_fn(tree, cls_name, fn_name) if tree is not None else None
+        if fn is None and tree is not None and cls_name == "Tokenizer":
+            fn = _find_class_fn(tree, "_TokenizerBase", fn_name)
+        if fn is None:
+            continue
+        found += 1
+        module_names = set()
+        for st in tree.body:
+            for tg in (st.targets if isinstance(st, ast.Assign) else [st.target] if isinstance(st, ast.AnnAssign) else []):
+                if isinstance(tg, ast.Name):
+                    module_names.add(tg.id)
+        local = {a.arg for a in fn.args.args + fn.args.kwonlyargs} | {n.id for n in ast.walk(fn) if isinstance(n, ast.Name) and isinstance(n.ctx, ast.Store)}
+
+        def container(node):
+            if isinstance(node, ast.Name) and node.id in module_names and node.id not in local:
+                return node.id
+            if isinstance(node, ast.Attribute) and isinstance(node.value, ast.Name) and node.value.id in ("cls", "self") \
+                    and (node.attr.isupper() or node.attr.startswith("_classes") or node.value.id == "cls"):
+                return node.attr
+            if isinstance(node, ast.Attribute) and isinstance(node.value, ast.Call) and isinstance(node.value.func, ast.Name) \
+                    and node.value.func.id == "type":
+                return node.attr
+            return None
+
+        def visit(node, locked):
+            if isinstance(node, (ast.With, ast.AsyncWith)) and any("lock" in ast.unparse(it.context_expr).lower() for it in node.items):
+                for b in node.body:
+                    visit(b, True)
+                return
+            hit = None
+            if isinstance(node, (ast.Assign, ast.Delete, ast.AugAssign)):
+                for tg in (node.targets if not isinstance(node, ast.AugAssign) else [node.target]):
+                    if isinstance(tg, ast.Subscript):
+                        hit = hit or container(tg.value)
+                    elif isinstance(node, ast.AugAssign):
+                        hit = hit or container(tg)
+            if isinstance(node, ast.Call) and isinstance(node.func, ast.Attribute) and node.func.attr in MUTATORS:
+                hit = hit or container(node.func.value)
+            if hit and not locked:
+                site = f"{rel}:{node.lineno}: {cls_name}.{fn_name}: {hit}"
+                (audited if hit in AUDITED_CONTAINERS else unlocked).append(site)
+            for ch in ast.iter_child_nodes(node):
+                visit(ch, locked)
+
+        for st in fn.body:
+            visit(st, False)
+    res = {"functions": found, "audited": sorted(set(audited)), "unlocked": sorted(set(unlocked))}
+    chk.cov["hot_path_containers"] = res
+    return res
+
+
 def translate(chk: Check) -> str:
     import sqlglot.dialects as D
     import sqlglot.optimizer as O
@@ -1275,6 +1348,7 @@ def translate(chk: Check) -> str:
     wf = worker_factories(chk)
     mh = metaclass_hooks(chk)
     dc = dispatch_cache_writes(chk)
+    hp = hot_path_writes(chk)
     chk.cov["lock_order_scan"] = {"modules_scanned": len(re["scanned"]), "reentry_sites": [f"{m}:{ln}: {w}" for m, ln, w in re["sites"]]}
     chk.cov["_reentry_modules"] = sorted({m for m, _, _ in re["sites"]})
     if len(re["scanned"]) < 60:
@@ -1321,6 +1395,11 @@ def translate(chk: Check) -> str:
         "def perInstanceCacheWrites : List String := [" + ", ".join(lean_str(h) for h in dc["writes"]) + "]\n"
         "/-- informational: such sites that belong to a listed known finding (not part of the obligation) -/\n"
         "def knownPerInstanceWrites : List String := [" + ", ".join(lean_str(h) for h in dc["known"]) + "]\n"
+        "/-- the look-up hot path (get_or_raise, _Dialect.get/__getitem__/_try_load, Dialect.__init__, the worker constructors): how many of\n"
+        "    the functions were found, the audited writes (registry, dispatch fill), and any other unlocked write to a shared container -/\n"
+        f"def hotPathFunctions : Nat := {hp['functions']}\n"
+        "def hotPathAuditedWrites : List String := [" + ", ".join(lean_str(h) for h in hp["audited"]) + "]\n"
+        "def hotPathUnlockedWrites : List String := [" + ", ".join(lean_str(h) for h in hp["unlocked"]) + "]\n"
         "end SqlglotModel.Generated.C19\n"
     )
 
@@ -1681,6 +1760,25 @@ def settings_spec(chk: Check, dialect: str, below: str) -> dict:
         threads.append(prog)
     return {"mode": "V", "probe": False, "switch": rng.choice([1e-6, 1e-6, 1e-5]), "hashseed": rng.randrange(1000), "timeout": 40,
             "threads": threads}
+
+
+DIALECT_SUFFIXES = ["", ", version=1.0", ", version=99.0", ", normalization_strategy = case_sensitive",
+                    ", normalization_strategy = lowercase", ", version=7.5, normalization_strategy = uppercase"]
+
+
+def churn_spec(chk: Check) -> dict:
+    """8 threads cycle through MANY distinct dialect strings (every registered name x settings suffixes: about 200, several
+    times any plausible memo capacity) at the same time"""
+    rng = chk.rng
+    names, by_attr = dialect_tables()
+    strings = [by_attr[nm] + sfx for nm in names for sfx in DIALECT_SUFFIXES]
+    sql = "SELECT a + 1 AS b, COUNT(*) FROM t WHERE c = 'x' GROUP BY 1"
+    threads = []
+    for w in range(8):
+        order = list(strings)
+        rng.shuffle(order)
+        threads.append([["vt", "transpile", sql, "", d, 1] for d in order])
+    return {"mode": "D", "probe": False, "switch": 1e-5, "hashseed": rng.randrange(1000), "timeout": 60, "threads": threads}
 
 
 def _below(t: tuple) -> str:
@@ -2058,7 +2156,9 @@ def check_run(chk: Check, out: dict, base: Baseline, runner: Runner) -> list:
             if early:
                 kind = "early-registry-read:" + kind
             key = f"{kind}:{op[0]}:{exc}:{where}"
-            if op[0] == "vt":
+            if op[0] == "vt" and spec.get("mode") == "D":
+                key = f"dialect-strings:{kind}:{exc}"
+            elif op[0] == "vt":
                 key = f"settings:{'unstable' if r.startswith('unstable:') else kind}:{op[1]}:{op[4].split(',')[0]}"
             if op[0] == "sh":
                 key = f"shared-instance:{'unstable' if r.startswith('unstable:') else kind}:{op[1]}:{op[5] or 'noopt'}"
@@ -2262,7 +2362,8 @@ def run(chk: Check) -> None:
         extra = [("databricks", b) for d, b in versioned if d == "spark"]
         settings = [settings_spec(chk, d, b) for _ in range(chk.pick(1, 6) * boost) for d, b in versioned + extra]
         chk.cov["settings_runs"] = {"dialect_versions": [f"{d} < {b}" for d, b in versioned + extra], "run": len(settings)}
-        specs = corpus + routes + shared + settings + specs
+        churn = [churn_spec(chk) for _ in range(chk.pick(2, 10) * boost)]
+        specs = corpus + routes + shared + settings + churn + specs
         base.ensure(list(all_ops(specs)), True)
         t0 = time.time()
         load_interference(chk, runner, workers, boost)
